@@ -222,7 +222,6 @@ func HarnessC14MapMissing() {
 	got := m.GetMissingPositions(tg)
 	verifCheckOwned("C17.MapPollard.GetMissingPositions")
 	need, _ := v.proofIdx(didx)
-	nm := m.Nodes.(*NodesMap).m
 	var want []uint64
 	var wantHashes []Hash
 	for _, x := range need {
@@ -230,7 +229,7 @@ func HarnessC14MapMissing() {
 		y := tv.nodeAt(refStart(v.nodes[x].row, tv.rows) + (v.nodes[x].pos - refStart(v.nodes[x].row, v.rows)))
 		stored := false
 		if y >= 0 {
-			_, stored = nm[tv.nodes[y].pos]
+			_, stored = m.Nodes.Get(tv.nodes[y].pos)
 		}
 		if !stored {
 			want = append(want, v.nodes[x].pos)
